@@ -6,4 +6,6 @@ export GOFLAGS=-mod=mod GOPROXY=off GOSUMDB=off GOTOOLCHAIN=local CGO_ENABLED=1
 mkdir -p bin evidence out
 cp /repo/go.sum fxsim/go.sum
 (cd fxsim && go build -tags verif -o ../bin/fxsim ./cmd/fxsim)
+# C17 replicas also run in a binary of the same tree built with a second toolchain (other runtime and map implementation, testing/synctest)
+(cd fxsim && /opt/veriftools/go1.26.8/bin/go build -tags verif -o ../bin/fxsim126 ./cmd/fxsim)
 echo "setup ok"
